@@ -49,6 +49,8 @@ async def episode(loop: vloop.VirtualLoop, ctx, pid: str, trial: int) -> None:
 
     rng = random.Random(f"qosint/{ctx.seed}/{trial}")
     script = Script(rng)
+    if pid == "C08" and trial % 2 == 0:  # the ledger needs retransmissions: heavy loss in half of its episodes
+        script.p_echo, script.p_rply = rng.choice(((1.0, 1.0), (1.0, 1.0), (0.5, 1.0), (1.0, 0.5), (0.8, 0.8)))
     script.on = False
     air = airmod.Air(loop, fault=script)
 
@@ -117,6 +119,40 @@ async def episode(loop: vloop.VirtualLoop, ctx, pid: str, trial: int) -> None:
                 own_reply = q[-3] == p[-3] and q[-6] == CTL and q[-1][:2] == p[-1][:2] and rec["result"][:2] in ("RP", " I")
                 if not (own_echo or own_reply):
                     ctx.violate("C07|integration|foreign-packet-returned", "on the real serial transport a send returned a packet that is neither its echo nor its reply", {"call": rec, "episode": meta})
+    if pid == "C08":
+        # the write ledger, read at the serial port itself (what actually went to the stick)
+        def owner(frame: str) -> int | None:
+            q = frame.split(" ")
+            for rec in history:
+                p_ = rec["cmd"].split(" ")
+                if q[0:1] == p_[0:1] and q[-3:] == p_[-3:] and frame[:2] == rec["cmd"][:2]:
+                    return rec["n"]
+            return None
+
+        port_writes = [(vt, owner(fr), fr) for vt, _port, fr in air.tx_log]
+        port_writes = [w for w in port_writes if w[1] is not None]
+        ctx.count("int.port_writes", len(port_writes))
+        runs: list[int] = []
+        for _vt, n, _fr in port_writes:
+            if not runs or runs[-1] != n:
+                runs.append(n)
+        if len(runs) != len(set(runs)):
+            ctx.violate("C08|integration|interleaved-commands", "at the serial port the transmissions of two commands interleave (A, B, A)", {"runs": runs[:10], "writes": [(round(v, 4), n) for v, n, _ in port_writes][:20], "episode": meta})
+        for rec in history:
+            mine = [vt for vt, n, _fr in port_writes if n == rec["n"]]
+            limit = 1 + min(rec["max_retries"], 3)
+            if len(mine) > limit:
+                ctx.violate("C08|integration|too-many-transmissions", "at the serial port a command was written more than 1 + min(max_retries, 3) times", {"call": rec, "writes_vt": mine, "limit": limit, "episode": meta})
+            if "exc" in rec and "Exceeded maximum retries" in rec.get("text", "") and len(mine) != limit and not meta.get("serial_error"):
+                ctx.violate("C08|integration|gave-up-early", "a command failed for 'maximum retries' before 1 + min(max_retries, 3) writes reached the serial port", {"call": rec, "writes_vt": mine, "limit": limit, "episode": meta})
+            if not rec.get("open") and "return_vt" in rec:
+                late = [vt for vt in mine if vt > rec["return_vt"] + 1e-9]
+                if late:
+                    ctx.violate("C08|integration|transmitted-after-completion", "a command was written to the serial port after its caller had been given a result or an error", {"call": rec, "late_writes_vt": late, "episode": meta})
+            gaps = [round(b - a, 4) for a, b in zip(mine, mine[1:])]
+            ctx.seen(f"int|writes={len(mine)}/{limit}|{'ok' if 'result' in rec else rec.get('exc', 'open')}")
+            if gaps:
+                ctx.seen("int|gaps|" + ",".join(f"{g:.1f}" for g in gaps))
     if pid == "C09":
         if meta.get("serial_error") and gwy._protocol._transport is not None and gwy._protocol._transport.is_closing():
             ctx.count("int.link_lost")  # a lost serial link is not re-opened by the library: no probe possible
